@@ -1,9 +1,77 @@
 import Driver.Proto
+import ScrapliModel.Pipe
 namespace Driver
-open Scrapli
+open Scrapli Scrapli.Pipe
 
-/-- line-protocol handler for property C16 (arguments after the leading `c16` token) -/
+/-! line protocol for C16
+
+`c16 run <kind> <ib> <events>`: kind ∈ system|standard|telnet, `ib` hex, events = comma separated
+tokens (`.` = none): `s<hex>` peer sends, `r<n>:<k>` client read of size n returning a prefix of
+length k (clamped), `w<hex>` client write, `x` peer exit, `c` close.
+answer: `<dom> <outcomes> <left> <out> <sent> <written>`; outcomes = comma separated `d<hex>:<e>`
+(e ∈ n|eof|closed|other) or `b` (blocks).
+
+`c16 lock <force> <schedule>`: schedule = string of `r`/`c` moves from the blocked-read state;
+answer `<reader pc> <closer pc> <closed>`.
+-/
+
+def c16Kind : String → Option Kind
+  | "system" => some .system
+  | "standard" => some .standard
+  | "telnet" => some .telnet
+  | _ => none
+
+def c16Ev (tok : String) : Option Ev :=
+  match tok.toList with
+  | 's' :: rest => (fromHex (String.ofList rest)).map Ev.send
+  | 'w' :: rest => (fromHex (String.ofList rest)).map Ev.write
+  | ['x'] => some .peerExit
+  | ['c'] => some .close
+  | 'r' :: rest =>
+    match (String.ofList rest).splitOn ":" with
+    | [a, b] => do
+      let n ← a.toNat?
+      let k ← b.toNat?
+      pure (Ev.read n k)
+    | _ => none
+  | _ => none
+
+def c16Evs (s : String) : Option (List Ev) :=
+  if s == "." then some [] else (s.splitOn ",").mapM c16Ev
+
+def c16Err : Option RErr → String
+  | none => "n"
+  | some .eof => "eof"
+  | some .closed => "closed"
+  | some .other => "other"
+
+def c16Outcome : Outcome → String
+  | .block => "b"
+  | .ret d e => s!"d{toHex d}:{c16Err e}"
+
+def c16ReadsOk : List Ev → Bool
+  | [] => true
+  | .read n _ :: es => decide (1 ≤ n) && c16ReadsOk es
+  | _ :: es => c16ReadsOk es
+
+def c16Pc (r : RPc) : String :=
+  match r with | .idle => "idle" | .waitLock => "waitLock" | .inRead => "inRead" | .done => "done"
+def c16Cc (c : CPc) : String :=
+  match c with | .idle => "idle" | .waitLock => "waitLock" | .closing => "closing" | .done => "done"
+
 def handleC16 : List String → String
+  | ["run", kd, ib, evs] =>
+    match c16Kind kd, fromHex ib, c16Evs evs with
+    | some kd, some ib, some evs =>
+      let r := run kd (TState.init ib) evs
+      let dom := (decide (kd = .telnet) || ib.isEmpty) && c16ReadsOk evs
+      let outs := if r.2.isEmpty then "." else ",".intercalate (r.2.map c16Outcome)
+      s!"{b2s dom} {outs} {toHex r.1.left} {toHex r.1.out} {toHex (ib ++ sentFrom false evs)} {toHex (writtenFrom false evs)}"
+    | _, _, _ => "bad-op"
+  | ["lock", force, sched] =>
+    let moves := sched.toList.filterMap fun c => if c == 'r' then some true else if c == 'c' then some false else none
+    let s := runSched (s2b force) blockedRead moves
+    s!"{c16Pc s.r} {c16Cc s.c} {b2s s.closed}"
   | _ => "bad-op"
 
 end Driver
